@@ -614,6 +614,7 @@ func runC03(c *Ctx, r *Report) {
 	c03NoSingletonInCollections(c, r)
 	c03NoArgumentArrayMutation(c, r)
 	c03PrintrepReads(c, r)
+	c03ResliceClears(c, r)
 }
 
 func fxStrings(c *Ctx, fx []textFx) []string {
